@@ -718,3 +718,285 @@ Proof.
   - eexists. split; [reflexivity|].
     unfold load. cbn. unfold ser_options. rewrite to_options_ser. apply Fin.
 Qed.
+
+(* ------------------------------------------------------------------ option merging *)
+Lemma aget_aset k k' v o : aget k (aset k' v o) = if String.eqb k k' then Some v else aget k o.
+Proof.
+  induction o as [|[k2 v2] r IH]; cbn.
+  - destruct (String.eqb k k'); reflexivity.
+  - destruct (String.eqb_spec k' k2) as [->|N]; cbn.
+    + destruct (String.eqb k k2); reflexivity.
+    + destruct (String.eqb_spec k k2) as [->|N2].
+      * destruct (String.eqb_spec k2 k') as [E|_]; [congruence|reflexivity].
+      * exact IH.
+Qed.
+Lemma aget_aupdate kw : forall o k, NoDup (map fst kw) ->
+  aget k (aupdate o kw) = match aget k kw with Some v => Some v | None => aget k o end.
+Proof.
+  unfold aupdate. induction kw as [|[k' v] r IH]; cbn; intros o k Hnd; [reflexivity|].
+  inversion Hnd as [|? ? Hni Hnd']; subst. rewrite (IH _ _ Hnd'), aget_aset.
+  destruct (String.eqb_spec k k') as [->|N]; [|reflexivity].
+  destruct (aget k' r) eqn:E; [|reflexivity]. exfalso. apply Hni.
+  clear -E. induction r as [|[k2 v2] r IH]; cbn in *; [discriminate|].
+  destruct (String.eqb_spec k' k2) as [->|N]; auto.
+Qed.
+Lemma aget_drop excl o k : aget k (drop_options excl o) = if mem_str k excl then None else aget k o.
+Proof.
+  unfold drop_options. induction o as [|[k2 v2] r IH]; cbn; [destruct (mem_str k excl); reflexivity|].
+  destruct (mem_str k2 excl) eqn:M; cbn.
+  - rewrite IH. destruct (String.eqb_spec k k2) as [->|N]; [rewrite M|]; reflexivity.
+  - destruct (String.eqb_spec k k2) as [->|N]; [rewrite M; reflexivity|exact IH].
+Qed.
+Lemma aget_None_notin {A} k (o : list (string * A)) : ~ In k (map fst o) -> aget k o = None.
+Proof.
+  induction o as [|[k2 v2] r IH]; cbn; intros H; [reflexivity|].
+  destruct (String.eqb_spec k k2) as [->|N]; [exfalso; auto|]. apply IH. auto.
+Qed.
+Lemma mem_str_In x l : mem_str x l = true <-> In x l.
+Proof.
+  induction l as [|y r IH]; cbn; [split; [discriminate|contradiction]|].
+  destruct (String.eqb_spec x y) as [->|N]; [split; auto|].
+  rewrite IH. split; [auto|]. intros [E|H]; [congruence|exact H].
+Qed.
+Lemma aset_keys k v o x : In x (map fst (aset k v o)) -> x = k \/ In x (map fst o).
+Proof.
+  induction o as [|[k2 v2] r IH]; cbn; [intros [<-|[]]; auto|].
+  destruct (String.eqb_spec k k2) as [->|N]; cbn; [intros [<-|H]; auto|].
+  intros [<-|H]; [auto|]. destruct (IH H); auto.
+Qed.
+Lemma aupdate_keys kw : forall o x, In x (map fst (aupdate o kw)) -> In x (map fst o) \/ In x (map fst kw).
+Proof.
+  unfold aupdate. induction kw as [|[k v] r IH]; cbn; intros o x H; [auto|].
+  destruct (IH _ _ H) as [H1|H1]; [|auto]. destruct (aset_keys _ _ _ _ H1) as [->|H2]; auto.
+Qed.
+Lemma norm_option_fst o nd : fst (norm_option o nd) = fst nd.
+Proof. destruct nd. reflexivity. Qed.
+Lemma norm_option_ext o1 o2 nd : aget (fst nd) o1 = aget (fst nd) o2 -> norm_option o1 nd = norm_option o2 nd.
+Proof. destruct nd as [n d]. cbn [fst]. unfold norm_option. intros ->. reflexivity. Qed.
+
+Definition normalized (o : options) : Prop := lark_options_init o = Some o.
+Definition allowed_only (kw : options) : Prop := forall k, In k (map fst kw) -> In k load_allowed_options.
+
+Lemma allowed_in_defaults : forall k, In k load_allowed_options -> In k (map fst option_defaults).
+Proof.
+  assert (H : forallb (fun k => mem_str k (map fst option_defaults)) load_allowed_options = true) by (vm_compute; reflexivity).
+  rewrite forallb_forall in H. intros k Hk. apply mem_str_In. apply H. exact Hk.
+Qed.
+Lemma allowed_not_rejected kw : allowed_only kw -> kw_rejected kw = false.
+Proof.
+  intros H. unfold kw_rejected. apply not_true_is_false. intros E. apply existsb_exists in E.
+  destruct E as ([k v] & Hin & Hb). cbn [fst] in Hb. apply andb_true_iff in Hb. destruct Hb as (Hb & _).
+  assert (In k load_allowed_options) by (apply H; apply in_map_iff; exists (k, v); auto).
+  apply mem_str_In in H0. rewrite H0 in Hb. discriminate.
+Qed.
+
+(* what LarkOptions.__init__ makes of the merged dict, key by key *)
+Lemma lark_options_init_merge O excl kw :
+  normalized O -> NoDup (map fst kw) -> allowed_only kw -> (forall k, In k excl -> In k load_allowed_options) ->
+  lark_options_init (aupdate (drop_options excl O) kw) =
+  Some (map (fun nd => norm_option (match aget (fst nd) kw with
+                                    | Some v => [(fst nd, v)]
+                                    | None => if mem_str (fst nd) excl then [] else O
+                                    end) nd) option_defaults).
+Proof.
+  intros HO Hnd Hkw Hex. unfold normalized, lark_options_init in HO.
+  destruct (forallb (fun kv => mem_str (fst kv) (map fst option_defaults)) O) eqn:F; [|discriminate].
+  unfold lark_options_init.
+  assert (G : forallb (fun kv => mem_str (fst kv) (map fst option_defaults)) (aupdate (drop_options excl O) kw) = true).
+  { apply forallb_forall. intros [k v] Hin. cbn [fst]. apply mem_str_In.
+    assert (Hk : In k (map fst (aupdate (drop_options excl O) kw))) by (apply in_map_iff; exists (k, v); auto).
+    destruct (aupdate_keys _ _ _ Hk) as [H1|H1].
+    - rewrite forallb_forall in F. apply in_map_iff in H1. destruct H1 as ([k2 v2] & <- & Hin2).
+      unfold drop_options in Hin2. apply filter_In in Hin2. destruct Hin2 as (Hin2 & _).
+      apply mem_str_In. apply (F (k2, v2) Hin2).
+    - apply allowed_in_defaults. apply Hkw. exact H1. }
+  rewrite G. f_equal. apply map_ext. intros nd. apply norm_option_ext.
+  rewrite (aget_aupdate _ _ _ Hnd), aget_drop.
+  destruct (aget (fst nd) kw) eqn:E; cbn; [rewrite String.eqb_refl; reflexivity|].
+  destruct (mem_str (fst nd) excl); reflexivity.
+Qed.
+
+(* ------------------------------------------------------------------ property-level corollaries *)
+From LV Require Import Ser.Relevant.
+
+(* fields_restored: every attribute the behaviour reads comes back on load *)
+Theorem fields_restored cls f fs :
+  In (cls, fs) Relevant -> In f fs -> restored_by cls f = true.
+Proof.
+  assert (H : fields_restored_b = true) by (vm_compute; reflexivity).
+  unfold fields_restored_b in H. rewrite forallb_forall in H.
+  intros Hc Hf. specialize (H _ Hc). cbn [fst snd] in H. rewrite forallb_forall in H. apply H. exact Hf.
+Qed.
+
+Theorem options_partition k :
+  In k (map fst option_defaults) ->
+  (In k load_allowed_options /\ ~ In k construction_options) \/ (~ In k load_allowed_options /\ In k construction_options).
+Proof.
+  assert (H : options_partition_b = true) by (vm_compute; reflexivity).
+  unfold options_partition_b in H. apply andb_true_iff in H. destruct H as (H & _).
+  rewrite forallb_forall in H. intros Hk. specialize (H _ Hk).
+  destruct (mem_str k load_allowed_options) eqn:A; destruct (mem_str k construction_options) eqn:C; try discriminate.
+  - left. split; [apply mem_str_In; exact A|]. intros X. apply mem_str_In in X. congruence.
+  - right. split; [|apply mem_str_In; exact C]. intros X. apply mem_str_In in X. congruence.
+Qed.
+
+(* table_roundtrip: deserialize (serialize tbl) = tbl for every parse table *)
+Theorem table_roundtrip t :
+  (forall a b, In a (map MRule (table_rules t)) -> In b (map MRule (table_rules t)) -> mentry_keyeqb a b = true -> a = b) ->
+  exists v m, ser_table t [] = Some (v, m) /\ deser_table (tbl_of m) v = Some t.
+Proof.
+  intros Hu. destruct (ser_table_total t []) as (v & m & E). exists v, m. split; [exact E|].
+  assert (Hin : table_in (map MRule (table_rules t)) t).
+  { unfold table_in. apply Forall_forall. intros [s acts] Hs. cbn. apply actions_rules_in. intros r Hr.
+    apply in_map. unfold table_rules. apply in_flat_map. exists (s, acts). auto. }
+  destruct (ser_table_ok _ Hu t [] v m Hin (incl_nil_l _) E) as (_ & _ & Hd). apply Hd. apply ext_refl.
+Qed.
+
+(* the Enumerator is a bijection between the items met and the numbers handed out *)
+Lemma nodup_snoc (e : list string) x : NoDup e -> ~ In x e -> NoDup (e ++ [x]).
+Proof.
+  induction e as [|y r IH]; cbn; intros Hn Hx; [constructor; [auto|constructor]|].
+  inversion Hn; subst. constructor.
+  - intros K. apply in_app_or in K. destruct K as [K|[K|[]]]; [auto|]. subst. apply Hx. auto.
+  - apply IH; auto.
+Qed.
+Lemma enum_get_nodup e x n e' : NoDup e -> enum_get String.eqb e x = (n, e') -> NoDup e' /\ nth_error e' n = Some x.
+Proof.
+  intros Hn H. split.
+  - revert H. unfold enum_get. destruct (find_index String.eqb x e) eqn:F; intros H; inversion H; subst; [exact Hn|].
+    apply nodup_snoc; [exact Hn|]. intros K. pose proof (find_index_None _ _ _ F _ K) as E.
+    rewrite String.eqb_refl in E. discriminate.
+  - apply (enum_get_str _ _ _ _ H).
+Qed.
+Lemma ser_actions_tokens_nodup acts : forall tk m d tk' m',
+  NoDup tk -> ser_actions acts tk m = Some ((d, tk'), m') -> NoDup tk'.
+Proof.
+  induction acts as [|[tok a] r IH]; cbn [ser_actions]; intros tk m d tk' m' Hn H.
+  - inversion H; subst. exact Hn.
+  - destruct (enum_get String.eqb tk tok) as [i tk1] eqn:G.
+    destruct (ser_action a m) as [[v m1]|]; [|discriminate].
+    destruct (ser_actions r tk1 m1) as [[[d1 tk2] m2]|] eqn:F; [|discriminate]. inversion H; subst.
+    apply (IH _ _ _ _ _ (proj1 (enum_get_nodup _ _ _ _ Hn G)) F).
+Qed.
+Lemma ser_states_tokens_nodup sts : forall tk m d tk' m',
+  NoDup tk -> ser_states sts tk m = Some ((d, tk'), m') -> NoDup tk'.
+Proof.
+  induction sts as [|[s acts] r IH]; cbn [ser_states]; intros tk m d tk' m' Hn H.
+  - inversion H; subst. exact Hn.
+  - destruct (ser_actions acts tk m) as [[[d1 tk1] m1]|] eqn:E; [|discriminate].
+    destruct (ser_states r tk1 m1) as [[[d2 tk2] m2]|] eqn:F; [|discriminate]. inversion H; subst.
+    apply (IH _ _ _ _ _ (ser_actions_tokens_nodup _ _ _ _ _ _ Hn E) F).
+Qed.
+(* the 'tokens' dict of a serialised table never maps two numbers to the same token *)
+Theorem token_numbering_injective t m d tk m' i j x :
+  ser_states (t_states t) [] m = Some ((d, tk), m') ->
+  nth_error tk i = Some x -> nth_error tk j = Some x -> i = j.
+Proof.
+  intros H Hi Hj. pose proof (ser_states_tokens_nodup _ _ _ _ _ _ (NoDup_nil _) H) as Hn.
+  rewrite NoDup_nth_error in Hn. apply Hn; [apply nth_error_Some; rewrite Hi; discriminate|congruence].
+Qed.
+
+Lemma aupdate_nil o : aupdate o [] = o.
+Proof. reflexivity. Qed.
+
+(* C11_saveload *)
+Theorem saveload_roundtrip g O i :
+  build g O = Some i -> wf_inst i -> normalized O ->
+  exists dm, save i [] = Some dm /\ load dm [] = Some i.
+Proof.
+  intros Hb Hwf HO. destruct (load_save g O i [] [] Hb Hwf) as (dm & Hs & Hl).
+  exists dm. split; [exact Hs|]. rewrite Hl. cbn [kw_rejected existsb]. rewrite drop_options_nil, aupdate_nil.
+  rewrite HO. exact Hb.
+Qed.
+
+(* the cache path: saved without the load-allowed options, which are re-supplied as keyword arguments *)
+Theorem cache_roundtrip g O i kw :
+  build g O = Some i -> wf_inst i -> normalized O -> NoDup (map fst kw) -> allowed_only kw ->
+  (* each load-allowed option of the running instance is what LarkOptions makes of the keyword arguments *)
+  (forall k d, In (k, d) option_defaults -> In k load_allowed_options ->
+               norm_option (match aget k kw with Some v => [(k, v)] | None => [] end) (k, d) = norm_option O (k, d)) ->
+  exists dm, save i load_allowed_options = Some dm /\ load dm kw = Some i.
+Proof.
+  intros Hb Hwf HO Hnd Hkw Hag.
+  destruct (load_save g O i load_allowed_options kw Hb Hwf) as (dm & Hs & Hl).
+  exists dm. split; [exact Hs|]. rewrite Hl, (allowed_not_rejected _ Hkw).
+  rewrite (lark_options_init_merge O load_allowed_options kw HO Hnd Hkw (fun k H => H)).
+  cbn [obind]. replace (map _ option_defaults) with O; [exact Hb|].
+  pose proof HO as HO'. unfold normalized, lark_options_init in HO'.
+  destruct (forallb (fun kv => mem_str (fst kv) (map fst option_defaults)) O); [|discriminate].
+  assert (HO2 : map (norm_option O) option_defaults = O) by congruence.
+  rewrite <- HO2 at 1. apply map_ext_in. intros [k d] Hin. cbn [fst].
+  destruct (mem_str k load_allowed_options) eqn:A.
+  - apply mem_str_In in A. rewrite <- (Hag k d Hin A). destruct (aget k kw); reflexivity.
+  - destruct (aget k kw) eqn:E; [|reflexivity]. exfalso.
+    assert (In k (map fst kw)).
+    { clear -E. induction kw as [|[k2 v2] r IH]; cbn in *; [discriminate|].
+      destruct (String.eqb_spec k k2); auto. }
+    apply Hkw in H. apply mem_str_In in H. congruence.
+Qed.
+
+(* load-time options: a saved parser loaded with load-allowed keyword arguments is the parser a direct construction
+   with those options produces; any other known option is refused *)
+Theorem load_override g O i kw :
+  build g O = Some i -> wf_inst i -> allowed_only kw ->
+  exists dm, save i [] = Some dm /\ load dm kw = obind (lark_options_init (aupdate O kw)) (build g).
+Proof.
+  intros Hb Hwf Hkw. destruct (load_save g O i [] kw Hb Hwf) as (dm & Hs & Hl).
+  exists dm. split; [exact Hs|]. rewrite Hl, (allowed_not_rejected _ Hkw), drop_options_nil. reflexivity.
+Qed.
+Theorem load_rejects g O i k v kw :
+  build g O = Some i -> wf_inst i -> In k construction_options ->
+  exists dm, save i [] = Some dm /\ load dm ((k, v) :: kw) = None.
+Proof.
+  intros Hb Hwf Hk. destruct (load_save g O i [] ((k, v) :: kw) Hb Hwf) as (dm & Hs & Hl).
+  exists dm. split; [exact Hs|]. rewrite Hl.
+  assert (R : kw_rejected ((k, v) :: kw) = true).
+  { unfold kw_rejected. cbn [existsb fst].
+    assert (P : options_partition_b = true) by (vm_compute; reflexivity).
+    unfold options_partition_b in P. apply andb_true_iff in P. destruct P as (P1 & P2).
+    rewrite forallb_forall in P1, P2.
+    assert (D : mem_str k (map fst option_defaults) = true) by (apply P2; apply in_or_app; right; exact Hk).
+    specialize (P1 k (proj1 (mem_str_In _ _) D)). apply mem_str_In in Hk. rewrite Hk in P1.
+    destruct (mem_str k load_allowed_options); [discriminate|]. rewrite D. reflexivity. }
+  rewrite R. reflexivity.
+Qed.
+
+(* the stand-alone module: DATA / MEMO are printed (or pickled, compressed and base64-encoded) into the module text
+   and read back by the Python parser (or pickle); that codec is a Section variable.  What is proved: the literals
+   carry exactly memo_serialize's output, Lark_StandAlone (keyword arguments kw) = Lark._load_from_dict (DATA, MEMO, kw) rebuilds
+   the instance, and the integers the module rebinds Shift / Reduce to are distinct.  NOT modelled: that the
+   extracted sections are the same program as the library. *)
+Section Standalone.
+  Variable encode : value -> string.
+  Variable decode : string -> option value.
+  Hypothesis codec : forall v, decode (encode v) = Some v.
+  Definition standalone_load (sd sm : string) (kw : options) : option lark_inst :=
+    obind (decode sd) (fun d => obind (decode sm) (fun m => load (d, m) kw)).
+  Theorem standalone_roundtrip g O i kw :
+    build g O = Some i -> wf_inst i -> allowed_only kw ->
+    exists data mj, memo_serialize i = Some (data, mj) /\
+      standalone_load (encode data) (encode mj) kw = obind (lark_options_init (aupdate O kw)) (build g) /\
+      standalone_shift <> standalone_reduce.
+  Proof.
+    intros Hb Hwf Hkw. destruct (load_override g O i kw Hb Hwf Hkw) as ([data mj] & Hs & Hl).
+    unfold save in Hs. destruct (memo_serialize i) as [[dd mm]|] eqn:E; [|discriminate].
+    destruct dd; try discriminate. inversion Hs; subst.
+    eexists; eexists. split; [reflexivity|]. split; [|discriminate].
+    unfold standalone_load. rewrite !codec. cbn [obind]. exact Hl.
+  Qed.
+End Standalone.
+
+(* regression (found by this development, repaired in lark: Pattern._deserialize): without re-freezing, the
+   flags come back as lists and the embedding test of _create_unless changes its answer *)
+Lemma flags_list_changes_unless_test :
+  exists a b, flags_le (FSet a) (FSet b) = Some false /\
+              flags_le (flags_as_list (FSet a)) (flags_as_list (FSet b)) = Some true.
+Proof. exists ["i"], ["s"]. split; reflexivity. Qed.
+(* with the hook the test is unchanged, whatever the flags *)
+Lemma flags_le_preserved a b fa fb :
+  flags_ok a -> flags_ok b -> deser_flags (ser_flags a) = Some fa -> deser_flags (ser_flags b) = Some fb ->
+  flags_le fa fb = flags_le a b.
+Proof.
+  intros Ha Hb. rewrite (flags_roundtrip _ Ha), (flags_roundtrip _ Hb). intros H1 H2. inversion H1; inversion H2; subst.
+  reflexivity.
+Qed.
